@@ -96,6 +96,17 @@ struct WMon {
     // ---- weak-link verdicts as published once per housekeeping tick (C17) ----
     /// per link label: (consecutive share-weak verdicts, forced not-weak ticks still owed)
     c17: HashMap<String, (u32, u32)>,
+    /// per link label: what the previous tick published about the CC soft cap (C16)
+    c16: HashMap<String, C16W>,
+}
+
+#[derive(Clone, Default)]
+struct C16W {
+    target: u64,
+    state: String,
+    seeded: bool,
+    loss_degraded: bool,
+    high_since: Option<u64>,
 }
 
 /// An accepted reload whose application (at the next housekeeping tick) is awaited.
@@ -161,10 +172,15 @@ impl WMon {
         // a bypassed tick (throughput under the floor, nobody connected) restarts every history
         if links.iter().any(|l| l["weak_reason"].as_str() == Some("bypassed")) || links.is_empty() {
             self.c17.clear();
+            let labels: Vec<String> = links.iter().filter_map(|l| l["label"].as_str().map(|s| s.to_string())).collect();
+            self.c16.retain(|k, _| labels.contains(k));
+            self.on_stats_cc(now, links, out);
             return;
         }
         let labels: Vec<String> = links.iter().filter_map(|l| l["label"].as_str().map(|s| s.to_string())).collect();
         self.c17.retain(|k, _| labels.contains(k));
+        self.c16.retain(|k, _| labels.contains(k));
+        self.on_stats_cc(now, links, out);
         for l in links {
             let (Some(label), Some(connected), Some(weak)) = (l["label"].as_str(), l["connected"].as_bool(), l["weak"].as_bool()) else { continue };
             let reason = l["weak_reason"].as_str().unwrap_or("");
@@ -198,6 +214,62 @@ impl WMon {
             } else {
                 h.0 = 0;
             }
+        }
+    }
+
+    /// C16 on what the real loop publishes every tick: range, no decrease outside a back-off or
+    /// a drain entry, at most 6 % growth per tick once seeded, loss latch set / clear thresholds.
+    fn on_stats_cc(&mut self, now: u64, links: &[serde_json::Value], out: &mut MonOut) {
+        for l in links {
+            let (Some(label), Some(tgt), Some(state)) = (l["label"].as_str(), l["cc_target_bps"].as_u64(), l["cc_state"].as_str()) else { continue };
+            let avg = l["cc_loss_ewma"].as_f64().unwrap_or(0.0);
+            let degraded = l["cc_loss_degraded"].as_bool().unwrap_or(false);
+            out.probe("w.c16.link_tick");
+            if !(100_000..=200_000_000).contains(&tgt) {
+                out.violate("C16.bounds", "whole_loop", now, format!("{label}: published target {tgt} outside [100 kbit/s, 200 Mbit/s] (real loop)"));
+            }
+            let prev = self.c16.get(label).cloned();
+            let mut cur = C16W { target: tgt, state: state.to_string(), seeded: prev.as_ref().is_some_and(|p| p.seeded), loss_degraded: degraded, high_since: prev.as_ref().and_then(|p| p.high_since) };
+            if let Some(p) = &prev {
+                if p.seeded {
+                    if tgt < p.target {
+                        let pt = p.target as f64;
+                        let backoff_ok = state == "backing_off" && (tgt as f64) >= (pt * 0.85).floor().max(100_000.0) - 1.0;
+                        let drain_ok = state == "drain" && p.state != "drain" && ((tgt as f64) - (pt * 0.75).floor().max(100_000.0)).abs() <= 1.0;
+                        if backoff_ok || drain_ok {
+                            out.probe("w.c16.decrease_judged");
+                        } else {
+                            out.violate("C16.decrease", "whole_loop", now, format!("{label}: published target {} -> {tgt} in state {state} (previous state {}): neither a x0.85 back-off nor a one-shot x0.75 drain entry (real loop)", p.target, p.state));
+                        }
+                    } else if tgt > p.target {
+                        out.probe("w.c16.increase_judged");
+                        if (tgt as f64) > (p.target as f64 * 1.06).floor() + 1.0 {
+                            out.violate("C16.growth", "whole_loop", now, format!("{label}: published target {} -> {tgt} in one tick (> 6 %), state {state} (real loop)", p.target));
+                        }
+                    }
+                } else if tgt > 100_000 {
+                    cur.seeded = true;
+                    out.probe("w.c16.seeded");
+                }
+                if !p.loss_degraded && degraded {
+                    let ok = avg > 0.55 && p.high_since.is_some_and(|h| now.saturating_sub(h) >= 3_990);
+                    out.probe("w.c16.loss_latch_set");
+                    if !ok {
+                        out.violate("C16.loss_latch", "set_early_whole_loop", now, format!("{label}: loss-degraded latched with loss average {avg:.3}, above 0.55 for {:?} ms (real loop)", p.high_since.map(|h| now - h)));
+                    }
+                }
+                if p.loss_degraded && !degraded && !(avg < 0.25) {
+                    out.violate("C16.loss_latch", "cleared_early_whole_loop", now, format!("{label}: loss-degraded cleared with loss average {avg:.3} (needs < 0.25) (real loop)"));
+                }
+            } else if tgt > 100_000 {
+                cur.seeded = true;
+            }
+            if avg > 0.55 {
+                cur.high_since.get_or_insert(now);
+            } else {
+                cur.high_since = None;
+            }
+            self.c16.insert(label.to_string(), cur);
         }
     }
 
@@ -385,6 +457,7 @@ impl WMon {
         self.ka_window.remove(&path);
         let via = format!(" via {}", crate::lsim::path_ip(path));
         self.c17.retain(|k, _| !k.ends_with(&via));
+        let _ = &self.c16; // (the controller's state outlives a reconnect: history is kept)
         self.registered.remove(&path);
         self.heard.remove(&path);
         self.last_ka.remove(&path);
